@@ -605,7 +605,7 @@ func ruleDequeIterTermination(c *Ctx, r *R) {
 				return
 			}
 			nRet++
-			ex, ok := ret.Results[0].(*ssa.Extract)
+			ex, ok := returnedValue(ret, 0).(*ssa.Extract)
 			if !ok {
 				delegates = false
 				return
@@ -641,7 +641,7 @@ func ruleDequeIterTermination(c *Ctx, r *R) {
 		if !ok || len(ret.Results) != 2 {
 			return
 		}
-		kc, isC := ret.Results[1].(*ssa.Const)
+		kc, isC := returnedValue(ret, 1).(*ssa.Const)
 		if !isC || kc.Value == nil || kc.Value.String() != "false" {
 			return
 		}
@@ -682,7 +682,7 @@ func ruleDequeIterTermination(c *Ctx, r *R) {
 		if !ok || len(ret.Results) != 2 {
 			return
 		}
-		kc, isC := ret.Results[1].(*ssa.Const)
+		kc, isC := returnedValue(ret, 1).(*ssa.Const)
 		if !isC || kc.Value == nil || kc.Value.String() != "false" {
 			return
 		}
